@@ -32,37 +32,6 @@ Proof.
   apply IH. intro Hin. apply H. right. exact Hin.
 Qed.
 
-Lemma status_loop_count t statuses : forall ps, NoDup (map fst statuses) ->
-  count_error t (calls (status_loop statuses ps)) =
-  (count_error t (calls ps) + (if ended_badly statuses (sched_stopped ps) t then 1 else 0))%nat.
-Proof.
-  induction statuses as [|[t' st] rest IH]; intros ps Hnd; cbn [status_loop].
-  - unfold ended_badly. cbn. lia.
-  - cbn in Hnd. inversion Hnd as [|? ? Hni Hnd']; subst. rewrite (IH _ Hnd'). unfold ended_badly. cbn [lookup].
-    destruct (t' =? t) eqn:E.
-    + assert (t' = t) by lia. subst t'. rewrite (lookup_notin t rest Hni).
-      destruct st; cbn [calls sched_stopped]; rewrite ?count_error_app; cbn [is_error]; rewrite ?Z.eqb_refl; try lia.
-      * destruct (lookup t (done ps)); cbn [calls]; rewrite ?count_error_app; cbn; lia.
-      * destruct (mem_Z t (sched_stopped ps)) eqn:EM; cbn [calls sched_stopped]; rewrite ?count_error_app; cbn [is_error negb];
-          rewrite ?Z.eqb_refl; lia.
-    + assert (Hss : forall ps1, sched_stopped ps1 = sched_stopped ps ->
-               (if match lookup t rest with Some S_Failed => true | Some S_Stopped => negb (mem_Z t (sched_stopped ps1)) | _ => false end then 1 else 0)%nat =
-               (if match lookup t rest with Some S_Failed => true | Some S_Stopped => negb (mem_Z t (sched_stopped ps)) | _ => false end then 1 else 0)%nat)
-        by (intros ps1 ->; reflexivity).
-      destruct st; cbn [calls sched_stopped]; rewrite ?count_error_app; cbn [is_error]; rewrite ?E; try lia.
-      * destruct (lookup t' (done ps)); cbn [calls]; rewrite ?count_error_app; cbn; lia.
-      * destruct (mem_Z t' (sched_stopped ps)); cbn [calls sched_stopped]; rewrite ?count_error_app; cbn [is_error]; rewrite ?E; lia.
-Qed.
-
-Lemma notified_once statuses results ss t : NoDup (map fst statuses) ->
-  count_error t (calls (update_running_trials statuses results ss)) =
-  if ended_badly statuses (sched_stopped (results_loop statuses results {| done := []; sched_stopped := ss; calls := [] |})) t
-  then 1%nat else 0%nat.
-Proof.
-  intro Hnd. unfold update_running_trials. rewrite (status_loop_count t statuses _ Hnd), results_loop_no_error. cbn. reflexivity.
-Qed.
-
-(* a trial whose run ended badly is in done_trials afterwards (it leaves the running set) *)
 Lemma lookup_set_key_same {A} t (v : A) l : lookup t (set_key t v l) = Some v.
 Proof. induction l as [|[k w] l IH]; cbn; [rewrite Z.eqb_refl; reflexivity|]. destruct (k =? t) eqn:E; cbn; rewrite E; auto. Qed.
 Lemma lookup_set_key_other {A} t t' (v : A) l : t' <> t -> lookup t' (set_key t v l) = lookup t' l.
@@ -70,34 +39,91 @@ Proof.
   intro Hne. induction l as [|[k w] l IH]; cbn; [destruct (t =? t') eqn:E; [lia | reflexivity]|].
   destruct (k =? t) eqn:E; cbn; destruct (k =? t') eqn:E2; auto; lia.
 Qed.
+(* processing the entry of another trial changes neither the scheduler-stopped set nor what is known about t *)
+Definition head_step (t' : Z) (st : status) (ps : poll_state) : poll_state :=
+  match st with
+  | S_Completed =>
+      {| done := set_key t' match lookup t' (done ps) with Some S_Paused => S_Paused | _ => S_Completed end (done ps);
+         sched_stopped := sched_stopped ps;
+         calls := match lookup t' (done ps) with None => calls ps ++ [CComplete t'] | Some _ => calls ps end |}
+  | S_Failed =>
+      {| done := set_key t' S_Failed (done ps); sched_stopped := sched_stopped ps;
+         calls := match lookup t' (done ps) with None => calls ps ++ [CError t'] | Some _ => calls ps end |}
+  | S_Stopped =>
+      if mem_Z t' (sched_stopped ps) then ps
+      else {| done := set_key t' S_Stopped (done ps); sched_stopped := sched_stopped ps; calls := calls ps ++ [CError t'] |}
+  | _ => ps
+  end.
+Lemma status_loop_cons t' st rest ps : status_loop ((t', st) :: rest) ps = status_loop rest (head_step t' st ps).
+Proof. destruct st; reflexivity. Qed.
+Lemma head_step_stopped t' st ps : sched_stopped (head_step t' st ps) = sched_stopped ps.
+Proof. destruct st; try reflexivity. cbn. destruct (mem_Z t' (sched_stopped ps)); reflexivity. Qed.
+Lemma head_step_other t t' st ps : t <> t' -> lookup t (done (head_step t' st ps)) = lookup t (done ps).
+Proof.
+  intro Hne. destruct st; cbn; rewrite ?lookup_set_key_other; auto.
+  destruct (mem_Z t' (sched_stopped ps)); cbn; rewrite ?lookup_set_key_other; auto.
+Qed.
+Lemma head_step_count_other t t' st ps : t <> t' -> count_error t (calls (head_step t' st ps)) = count_error t (calls ps).
+Proof.
+  intro Hne. assert (E : (t' =? t) = false) by lia.
+  destruct st; cbn [head_step calls]; try reflexivity.
+  - destruct (lookup t' (done ps)); cbn [calls]; rewrite ?count_error_app; cbn [is_error]; lia.
+  - destruct (lookup t' (done ps)); cbn [calls]; rewrite ?count_error_app; cbn [is_error]; rewrite ?E; lia.
+  - destruct (mem_Z t' (sched_stopped ps)); cbn [calls]; rewrite ?count_error_app; cbn [is_error]; rewrite ?E; lia.
+Qed.
+Lemma ended_badly_ext statuses ps ps' t : sched_stopped ps' = sched_stopped ps -> lookup t (done ps') = lookup t (done ps) ->
+  ended_badly statuses ps' t = ended_badly statuses ps t.
+Proof. intros H1 H2. unfold ended_badly, decided. rewrite H1, H2. reflexivity. Qed.
+
+Lemma status_loop_count t statuses : forall ps, NoDup (map fst statuses) ->
+  count_error t (calls (status_loop statuses ps)) =
+  (count_error t (calls ps) + (if ended_badly statuses ps t then 1 else 0))%nat.
+Proof.
+  induction statuses as [|[t' st] rest IH]; intros ps Hnd.
+  - cbn. lia.
+  - rewrite status_loop_cons. cbn in Hnd. inversion Hnd as [|? ? Hni Hnd']; subst. rewrite (IH _ Hnd').
+    destruct (Z.eq_dec t t') as [<-|Hne].
+    + (* the entry of t itself; t does not occur in the rest *)
+      assert (Hrest : ended_badly rest (head_step t st ps) t = false).
+      { unfold ended_badly. rewrite (lookup_notin t rest Hni). reflexivity. }
+      rewrite Hrest. unfold ended_badly, decided. cbn [lookup]. rewrite Z.eqb_refl.
+      destruct st; cbn [head_step calls negb]; try lia.
+      * destruct (lookup t (done ps)); cbn [calls]; rewrite ?count_error_app; cbn [is_error]; lia.
+      * destruct (lookup t (done ps)); cbn [calls negb]; rewrite ?count_error_app; cbn [is_error]; rewrite ?Z.eqb_refl; lia.
+      * destruct (mem_Z t (sched_stopped ps)); cbn [calls negb]; rewrite ?count_error_app; cbn [is_error]; rewrite ?Z.eqb_refl; lia.
+    + rewrite (head_step_count_other t t' st ps Hne).
+      rewrite (ended_badly_ext rest ps (head_step t' st ps) t (head_step_stopped _ _ _) (head_step_other t t' st ps Hne)).
+      unfold ended_badly at 2. cbn [lookup]. assert (E : (t' =? t) = false) by lia. rewrite E. reflexivity.
+Qed.
+
+Lemma notified_once statuses results ss t : NoDup (map fst statuses) ->
+  count_error t (calls (update_running_trials statuses results ss)) =
+  if ended_badly statuses (results_loop statuses results {| done := []; sched_stopped := ss; calls := [] |}) t
+  then 1%nat else 0%nat.
+Proof.
+  intro Hnd. unfold update_running_trials. rewrite (status_loop_count t statuses _ Hnd), results_loop_no_error. cbn. reflexivity.
+Qed.
+
+(* a trial whose run ended badly is in done_trials afterwards (it leaves the running set) *)
 Lemma status_loop_done_mono t statuses : forall ps, lookup t (done ps) <> None -> lookup t (done (status_loop statuses ps)) <> None.
 Proof.
-  induction statuses as [|[t' st] rest IH]; intros ps H; cbn [status_loop]; [exact H|]. apply IH.
-  destruct (Z.eq_dec t t') as [->|Hne].
-  - destruct st; cbn [done]; rewrite ?lookup_set_key_same; try exact H; try discriminate.
-    destruct (mem_Z t' (sched_stopped ps)); cbn [done]; rewrite ?lookup_set_key_same; [exact H | discriminate].
-  - destruct st; cbn [done]; rewrite ?lookup_set_key_other; auto.
-    destruct (mem_Z t' (sched_stopped ps)); cbn [done]; rewrite ?lookup_set_key_other; auto.
+  induction statuses as [|[t' st] rest IH]; intros ps H; [exact H|]. rewrite status_loop_cons. apply IH.
+  destruct (Z.eq_dec t t') as [<-|Hne]; [|rewrite head_step_other; auto].
+  destruct st; cbn; rewrite ?lookup_set_key_same; try exact H; try discriminate.
+  destruct (mem_Z t (sched_stopped ps)); cbn; rewrite ?lookup_set_key_same; [exact H | discriminate].
 Qed.
-Lemma status_loop_done t statuses : forall ps,
-  ended_badly statuses (sched_stopped ps) t = true -> lookup t (done (status_loop statuses ps)) <> None.
+Lemma status_loop_done t statuses : forall ps, NoDup (map fst statuses) ->
+  ended_badly statuses ps t = true -> lookup t (done (status_loop statuses ps)) <> None.
 Proof.
-  induction statuses as [|[t' st] rest IH]; intros ps H; [discriminate|]. cbn [status_loop]. unfold ended_badly in H. cbn [lookup] in H.
-  destruct (t' =? t) eqn:E.
-  - assert (t' = t) by lia. subst t'. apply status_loop_done_mono. destruct st; try discriminate.
-    + cbn [done]. rewrite lookup_set_key_same. discriminate.
-    + apply negb_true_iff in H. rewrite H. cbn [done]. rewrite lookup_set_key_same. discriminate.
-  - apply IH. unfold ended_badly.
-    assert (HS : sched_stopped (match st with
-        | S_Completed => {| done := set_key t' match lookup t' (done ps) with Some S_Paused => S_Paused | _ => S_Completed end (done ps);
-                          sched_stopped := sched_stopped ps;
-                          calls := match lookup t' (done ps) with None => calls ps ++ [CComplete t'] | Some _ => calls ps end |}
-        | S_Failed => {| done := set_key t' S_Failed (done ps); sched_stopped := sched_stopped ps; calls := calls ps ++ [CError t'] |}
-        | S_Stopped => if mem_Z t' (sched_stopped ps) then ps
-                     else {| done := set_key t' S_Stopped (done ps); sched_stopped := sched_stopped ps; calls := calls ps ++ [CError t'] |}
-        | _ => ps end) = sched_stopped ps).
-    { destruct st; try reflexivity. destruct (mem_Z t' (sched_stopped ps)); reflexivity. }
-    rewrite HS. exact H.
+  induction statuses as [|[t' st] rest IH]; intros ps Hnd H; [discriminate|]. rewrite status_loop_cons.
+  cbn in Hnd. inversion Hnd as [|? ? Hni Hnd']; subst.
+  destruct (Z.eq_dec t t') as [<-|Hne].
+  - apply status_loop_done_mono. unfold ended_badly in H. cbn [lookup] in H. rewrite Z.eqb_refl in H.
+    destruct st; try discriminate; cbn.
+    + rewrite lookup_set_key_same. discriminate.
+    + apply negb_true_iff in H. rewrite H. cbn. rewrite lookup_set_key_same. discriminate.
+  - apply (IH _ Hnd'). rewrite (ended_badly_ext rest ps (head_step t' st ps) t (head_step_stopped _ _ _) (head_step_other t t' st ps Hne)).
+    unfold ended_badly in H. cbn [lookup] in H. assert (E : (t' =? t) = false) by lia. rewrite E in H. exact H.
 Qed.
 
 (* failure limit: more than max_failures failed trials => the run ends with an error naming a failed trial *)
